@@ -1,6 +1,7 @@
 package stateful
 
 import (
+	"errors"
 	"regexp"
 	"time"
 
@@ -1034,6 +1035,11 @@ var evaluationFuncs = map[operationKey]*evaluationFnInfo{
 				return emptyResultContainer, &ErrSide{error: err, IsRight: true}
 			}
 
+			if right == 0 {
+				// Report the fault as an error for this point instead of panicking.
+				return emptyResultContainer, &ErrSide{error: errors.New("runtime error: integer divide by zero"), IsRight: true}
+			}
+
 			return resultContainer{Int64Value: left / right, IsInt64Value: true}, nil
 		},
 		returnType: ast.TInt,
@@ -1051,6 +1057,11 @@ var evaluationFuncs = map[operationKey]*evaluationFnInfo{
 
 			if right, err = rightNode.EvalInt(scope, executionState); err != nil {
 				return emptyResultContainer, &ErrSide{error: err, IsRight: true}
+			}
+
+			if right == 0 {
+				// Report the fault as an error for this point instead of panicking.
+				return emptyResultContainer, &ErrSide{error: errors.New("runtime error: integer divide by zero"), IsRight: true}
 			}
 
 			return resultContainer{Int64Value: left % right, IsInt64Value: true}, nil
@@ -1186,6 +1197,11 @@ var evaluationFuncs = map[operationKey]*evaluationFnInfo{
 				return emptyResultContainer, &ErrSide{error: err, IsRight: true}
 			}
 
+			if right == 0 {
+				// Report the fault as an error for this point instead of panicking.
+				return emptyResultContainer, &ErrSide{error: errors.New("runtime error: integer divide by zero"), IsRight: true}
+			}
+
 			return resultContainer{DurationValue: left / time.Duration(right), IsDurationValue: true}, nil
 		},
 		returnType: ast.TDuration,
@@ -1220,6 +1236,11 @@ var evaluationFuncs = map[operationKey]*evaluationFnInfo{
 
 			if right, err = rightNode.EvalDuration(scope, executionState); err != nil {
 				return emptyResultContainer, &ErrSide{error: err, IsRight: true}
+			}
+
+			if right == 0 {
+				// Report the fault as an error for this point instead of panicking.
+				return emptyResultContainer, &ErrSide{error: errors.New("runtime error: integer divide by zero"), IsRight: true}
 			}
 
 			return resultContainer{Int64Value: int64(left / right), IsInt64Value: true}, nil
